@@ -84,6 +84,7 @@ def print_attrset(ms):
             elif q == 'expr': parts.append('%s={%s}' % (n, v))
         elif kind == 'bool': parts.append(m[1] + '.')
         elif kind == 'implied': parts.append('!' + m[1] + ('' if m[2] is None else '=' + m[2]))
+        elif kind == 'implbool': parts.append('!' + m[1] + '.' + ('' if m[2] is None else '=' + m[2]))
     return '[' + ' '.join(parts) + ']'
 
 
